@@ -149,12 +149,22 @@ func (p c18) expression(c *core.Ctx) {
 	default:
 		e, ft = strExpr(c), reflect.TypeOf("")
 	}
-	tag := fmt.Sprintf("value:%q", "#{"+e+"}")
+	// the expression may be embedded in literal text (string targets): "pre-#{...}-post"
+	pre, post := "", ""
+	if ft.Kind() == reflect.String && c.Rng.Intn(2) == 0 {
+		pre, post = []string{"v", "pre-", "${s.x}:", ""}[c.Rng.Intn(4)], []string{"-post", "", "/${s.y}"}[c.Rng.Intn(3)]
+	}
+	tag := fmt.Sprintf("value:%q", pre+"#{"+e+"}"+post)
 	sub, _, _, status := modelResolve(e, env.tree)
+	preR, _, _, _ := modelResolve(pre, env.tree)
+	postR, _, _, _ := modelResolve(post, env.tree)
 	if status != "ok" {
 		return
 	}
 	want, derr := directEval(sub)
+	if ws, ok := want.(string); ok && derr == nil {
+		want = preR + ws + postR
+	}
 	hv, r := startHolder(c, []world.FieldSpec{{Name: "F", Type: ft, Tag: tag}}, env.doc)
 	c.Count("starts", 1)
 	detail := map[string]any{"tag": tag, "config": env.doc, "substituted_expression": sub, "direct_result": fmt.Sprintf("%#v", want), "direct_error": fmt.Sprint(derr), "outcome": core.Short(r.OutcomeDetail(), 300)}
@@ -240,7 +250,11 @@ func verdict(value any, constraints string) (fails bool, panicked any) {
 
 func (p c18) validation(c *core.Ctx) {
 	env := genC18Env(c)
-	kind := []string{"int", "string", "ints", "bool", "struct"}[c.Rng.Intn(5)]
+	kind := []string{"int", "string", "ints", "bool", "struct", "ptr"}[c.Rng.Intn(6)]
+	if kind == "ptr" {
+		p.pointerValidation(c, env)
+		return
+	}
 	var ft reflect.Type
 	var lit string
 	var bound any
@@ -380,5 +394,49 @@ func (p c18) staged(c *core.Ctx) {
 	c.Nontrivial(tag + env.doc)
 	if c.WantSample() {
 		c.Sample(detail)
+	}
+}
+
+// pointerValidation: pointer-typed targets, including the case where nothing is bound and the pointer
+// stays nil - the validator is asked about exactly that value.
+func (p c18) pointerValidation(c *core.Ctx, env c18Env) {
+	type tc struct {
+		ft    reflect.Type
+		lit   string
+		bound any
+	}
+	sval := []string{"va", "abcd", "x"}[c.Rng.Intn(3)]
+	n := c.Rng.Intn(12)
+	cases := []tc{
+		{reflect.TypeOf((*string)(nil)), "${s.none:},required=false", (*string)(nil)},
+		{reflect.TypeOf((*int)(nil)), "${n.none:},required=false", (*int)(nil)},
+		{reflect.TypeOf((*string)(nil)), sval, &sval},
+		{reflect.TypeOf((*int)(nil)), fmt.Sprint(n), &n},
+	}
+	t := cases[c.Rng.Intn(len(cases))]
+	kind := "string"
+	if t.ft.Elem().Kind() == reflect.Int {
+		kind = "int"
+	}
+	cons := genConstraintsFor(c, kind)
+	tag := fmt.Sprintf("value:%q", t.lit+",validate="+cons)
+	fails, pan := verdict(t.bound, cons)
+	if pan != nil {
+		return
+	}
+	_, r := startHolder(c, []world.FieldSpec{{Name: "F", Type: t.ft, Tag: tag}}, env.doc)
+	c.Count("starts", 1)
+	detail := map[string]any{"tag": tag, "target": t.ft.String(), "expected_bound_value": renderVal(t.bound), "direct_validator_objects": fails, "outcome": core.Short(r.OutcomeDetail(), 300)}
+	if abnormal(r.Outcome()) {
+		c.Fail("", fmt.Sprintf("tag %s: %s", tag, r.OutcomeDetail()), detail)
+		return
+	}
+	if fails != (r.Outcome() == "error") {
+		c.Fail("", fmt.Sprintf("tag %s on %s: the validator %s the bound value %s under %q, but the start outcome is %s", tag, t.ft, map[bool]string{true: "rejects", false: "accepts"}[fails], renderVal(t.bound), cons, r.Outcome()), detail)
+		return
+	}
+	c.Count("pointer_validation_verdicts_checked", 1)
+	if fails {
+		c.Nontrivial(tag)
 	}
 }
